@@ -20,8 +20,14 @@ def project(strings, idx, namespaces):
 
     def loc(order, tag):
         e = [[names[j], S(order[j])] for j in range(n)]
+        # keys whose kind differs between locales: a number / boolean in the default locale, a string elsewhere (and the reverse);
+        # every string of every locale must still get an index
+        if tag == "e":
+            e += [["mixn", {"t": "raw", "v": "42"}], ["mixb", {"t": "raw", "v": "true"}], ["mixs", S([tag, "m", "s"])]]
+        else:
+            e += [["mixn", S(order[0] + ["n"])], ["mixb", S(order[min(1, n - 1)] + ["b"])], ["mixs", {"t": "raw", "v": "7"}]]
         e.append(["dup", S(order[0])])
-        e.append(["g", {"t": "map", "e": [["s", S(order[min(1, n - 1)])], ["t", S([tag, "g"])],
+        e.append(["g", {"t": "map", "e": [["s", S(order[min(1, n - 1)])], ["t", S([tag, "g"])], ["mix", {"t": "raw", "v": "1.5"} if tag == "e" else S(order[0] + ["g"])],
                                           ["h", {"t": "map", "e": [["u", S(order[0])], ["v", S([tag, "h"])]]}]]}])
         e.append(["fk", S(["DOL", "t", "LP"] + (["z", "z", "COLON"] if namespaces else []) + list("k0001") + ["RP", "x"])])
         e.append(["p_one", S([tag, "o", "n", "e"])])
